@@ -52,7 +52,13 @@ theorem eval_for_step1 (ih : SAll ld fuel) (env : EnvId) {ids : List String} {e 
     ⟨v, v', m, q, q', t, t', s2, s2', rfl, rfl, h1, h2, h3⟩ | ⟨f, f', s2, s2', rfl, rfl, h1, h2⟩
   · simp only [ers_ok, h1, restoreVars_ers, hiddenVars_ers, hs, h2]
   · simp only [ers_err, h1, restoreVars_ers, hiddenVars_ers, hs, foldl_remove_ers, h3, ers_trace h2]
-  · exact h
+  · cases f <;> cases f' <;> first
+      | exact h
+      | (have h1' : (Fail.syn _) = Fail.syn _ := h1
+         cases h1'
+         simp only [ers_fail, restoreVars_ers, hiddenVars_ers, hs, foldl_remove_ers, h2]
+         done)
+      | (exfalso; revert h1; show (_ : Fail) = _ → False; intro h1; cases h1; done)
 
 
 theorem fin_sim {α : Type} [Ers α] {o o' : Out Unit} (ho : ers o = ers o') {k k' : State → Out α}
